@@ -57,6 +57,7 @@ type Contract struct {
 	Results  []string
 	Requires []*Clause
 	Ensures  []*Clause
+	FrameTags []string // extra property tags of the frame obligations (assigns[Cnn] ...)
 	ImplConv []string  // lines whose float->int conversion may be implementation-defined
 	OnPanic  []*Clause // exceptional postconditions (checked where a panic escapes the function)
 	Invs     []*Clause
@@ -398,6 +399,15 @@ func (cs *ContractSet) loadFile(file string, pkgPrefix string) error {
 				cur.Asserts = append(cur.Asserts, cl)
 			case "assigns":
 				cur.HasAssigns = true
+				// assigns[C10,C16] ...: further properties the frame obligations count for
+				if strings.HasPrefix(rest, "[") {
+					if j := strings.Index(rest, "]"); j > 0 {
+						for _, t := range strings.Split(rest[1:j], ",") {
+							cur.FrameTags = append(cur.FrameTags, strings.TrimSpace(t))
+						}
+						rest = strings.TrimSpace(rest[j+1:])
+					}
+				}
 				for _, a := range splitTop(rest, ",") {
 					a = strings.TrimSpace(a)
 					if a != "" && a != "nothing" {
@@ -412,9 +422,9 @@ func (cs *ContractSet) loadFile(file string, pkgPrefix string) error {
 				cur.Recovers = true
 			case "ghostvar":
 				// ghostvar name int = expr
-				m := regexp.MustCompile(`^(\w+)\s+(int|bool|seqint|seqbool)\s*=\s*(.*)$`).FindStringSubmatch(rest)
+				m := regexp.MustCompile(`^(\w+)\s+(int|bool|float|seqint|seqbool)\s*=\s*(.*)$`).FindStringSubmatch(rest)
 				if m == nil {
-					return fail("ghostvar name int|bool|seqint|seqbool = expr")
+					return fail("ghostvar name int|bool|float|seqint|seqbool = expr")
 				}
 				e, err := cs.parseExpr(m[3])
 				if err != nil {
